@@ -1,4 +1,4 @@
-import MpsVerif.Proofs.Frame
+import MpsVerif.Proofs.FrameChunks
 import MpsVerif.Proofs.MuxLive
 import MpsVerif.Proofs.Pipe
 /-!
@@ -6,9 +6,10 @@ import MpsVerif.Proofs.Pipe
 
 Part 1 (framing, `Model/Frame.lean`): whatever `write_record` wrote, `read_record` reads back —
 same request id, same encoder, byte-identical payload — for arbitrary payload bytes (newlines,
-header look-alikes, empty, any length) and any number of records back to back.  Decoding is a
-function of the byte stream, so chunk boundaries of the transport cannot matter (assumption on
-`StreamReader.readuntil/readexactly`, checked by the tie on many chunkings).
+header look-alikes, empty, any length) and any number of records back to back; a cut stream never
+yields a phantom record; and chunk boundaries of the transport cannot matter (`C18_frame_chunking`:
+a buffering reader whose reads wait while incomplete gets exactly what `decodeStream` gets from the
+concatenation; that `asyncio.StreamReader` is such a reader is checked by the tie on many chunkings).
 -/
 namespace Frame
 
@@ -45,6 +46,21 @@ theorem C18_frame_prefix_stable (lim : Nat) (bs x rest : Bytes) (r : Rec)
     (h : readRecord lim bs = .ok r rest) : readRecord lim (bs ++ x) = .ok r (rest ++ x) :=
   readRecord_mono lim x h
 
+/-- Chunking is irrelevant, for **every** byte stream (well formed or not) and **every** way the
+    transport cuts it: a reader that buffers what arrives and lets `read_record` wait while a read is
+    incomplete (`Model/Frame.lean`, `Reader`) returns exactly the records, and ends exactly the way,
+    `decodeStream` does on the concatenation. -/
+theorem C18_frame_chunking (lim : Nat) (chunks : List Bytes) :
+    readChunks lim chunks = decodeStream lim chunks.flatten :=
+  readChunks_eq lim chunks
+
+/-- hence: whatever the chunk boundaries, written records are read back exactly -/
+theorem C18_frame_roundtrip_chunked (lim : Nat) (rs : List Rec) (chunks : List Bytes)
+    (hw : ∀ r ∈ rs, wellFormedId r.rid ∧ (headerLine r).length ≤ lim)
+    (hc : chunks.flatten = rs.flatMap encodeRecord) :
+    readChunks lim chunks = (rs, .eof) := by
+  rw [C18_frame_chunking, hc]; exact C18_frame_roundtrip lim rs hw
+
 /-- non-vacuity: a payload that looks like a header and contains newlines, an empty payload and a
     plain one, back to back, with ids `7`, `x/1`, `140230` -/
 example :
@@ -55,7 +71,9 @@ example :
     ∧ (∀ r ∈ [r1, r2, r3], wellFormedId r.rid ∧ (headerLine r).length ≤ 64)
     ∧ encodeRecord r1 = [55, 32, 49, 49, 32, 110, 111, 110, 101, 10,
                          55, 32, 51, 32, 110, 111, 110, 101, 10, 10, 97]
-    ∧ decodeStream 64 (encodeStream [r1, r2] ++ (encodeRecord r3).take 9) = ([r1, r2], .incomplete) := by
+    ∧ decodeStream 64 (encodeStream [r1, r2] ++ (encodeRecord r3).take 9) = ([r1, r2], .incomplete)
+    -- the same stream arriving one byte at a time
+    ∧ readChunks 64 ((encodeStream [r1, r2, r3]).map (fun b => [b])) = ([r1, r2, r3], .eof) := by
   decide
 
 end Frame
